@@ -54,7 +54,9 @@ type Op struct {
 type Case struct {
 	Family string `json:"family"`
 	// single (Mods[0] alone) | dep (px.NewDependencyLoader over all) | runtime (internal/runtime.go builds the
-	// loaders from the module_path setting)
+	// loaders from the module_path setting) | chain (file-based loaders parented by file-based loaders: Mods[0] is
+	// the top loader, the parent of the loader of Mods[i] is the loader of Mods[i+1], the last one's parent is the
+	// system loader - the environment <- module arrangement)
 	Top  string    `json:"top"`
 	Mods []ModSpec `json:"mods"`
 	Ops  []Op      `json:"ops"`
